@@ -79,7 +79,9 @@ func newPoolModel(nAcct, pendingLimit, waitingLimit int) *poolModel {
 func (m *poolModel) held() int {
 	n := 0
 	for _, s := range m.slots {
-		n += len(s)
+		for _, sl := range s {
+			n += len(sl.cands) // pending and waiting may each hold one tx of a nonce
+		}
 	}
 	return n
 }
@@ -209,6 +211,7 @@ func (m *poolModel) checkReap(v reapView) []string {
 		out = append(out, fmt.Sprintf("offers-unknown-tx||%d offered txs were never submitted", v.Unknown))
 	}
 	if v.Limit >= 0 && len(v.IDs) > v.Limit {
+		// (also for the harness's own Reap(1024))
 		out = append(out, fmt.Sprintf("reap-exceeds-limit||Reap(%d) returned %d txs", v.Limit, len(v.IDs)))
 	}
 	seen := map[txid]bool{}
